@@ -15,9 +15,11 @@ var Formats = []string{"csv", "csv2", "fixed-length", "fixedlength2", "edi", "js
 // Rec is a logical record: a unique id, a numeric-looking field n (a non-numeric value makes the record fail under the
 // "failing" schema mode), and NF free-text fields.
 type Rec struct {
-	ID  string
-	Num string
-	F   []string
+	ID    string
+	Num   string
+	F     []string
+	Short int  // csv/csv2 single-line records: number of trailing cells left out of the row
+	Dup   bool // xml: the n element is rendered twice (an object field with two matches fails the record)
 }
 
 // Kit bundles, for one file format, a schema family and an independent encoder from logical records to input bytes.
@@ -180,6 +182,7 @@ const (
 	ModeFilter  = "filter"  // target filter: records with n='0' are not targets
 	ModeCopy    = "copy"    // FINAL_OUTPUT is the copy custom_func
 	ModeRich    = "rich"    // pass-through plus templates, arrays, custom funcs and javascript on the record
+	ModeFailFn  = "failfn"  // like failing, plus vf_fail(f1): records whose f1 contains the fail marker fail in a custom function
 )
 
 // Schema returns the schema JSON for a mode.
@@ -210,8 +213,11 @@ func (k *Kit) Schema(mode string) []byte {
 		obj := map[string]interface{}{}
 		for _, cname := range cols {
 			f := map[string]interface{}{"xpath": cname, "no_trim": true, "keep_empty_or_null": true}
-			if cname == "n" && mode == ModeFailing {
+			if cname == "n" && (mode == ModeFailing || mode == ModeFailFn) {
 				f = map[string]interface{}{"xpath": cname, "type": "int"}
+			}
+			if cname == "f1" && mode == ModeFailFn {
+				f = map[string]interface{}{"custom_func": map[string]interface{}{"name": "vf_fail", "args": []interface{}{map[string]interface{}{"xpath": "f1"}}}}
 			}
 			obj[cname] = f
 		}
@@ -583,6 +589,9 @@ func (k *Kit) OneRec(r *core.Rand, rec Rec, o RenderOpts, first, last bool) []by
 			for _, j := range l.fields {
 				cells = append(cells, rw[j])
 			}
+			if rec.Short > 0 && len(ls) == 1 && len(cells)-rec.Short >= 2 {
+				cells = cells[:len(cells)-rec.Short]
+			}
 			sb.WriteString(k.csvRow(r, cells))
 			if !last || li < len(ls)-1 || !o.NoFinalTerminator {
 				sb.WriteString(nl)
@@ -633,6 +642,9 @@ func (k *Kit) OneRec(r *core.Rand, rec Rec, o RenderOpts, first, last bool) []by
 		sb.WriteString("<rec>")
 		for j, c := range k.colNames() {
 			fmt.Fprintf(&sb, "<%s>%s</%s>", c, escText(nil, rw[j], false, 0), c)
+			if c == "n" && rec.Dup {
+				fmt.Fprintf(&sb, "<%s>%s</%s>", c, escText(nil, rw[j], false, 0), c)
+			}
 		}
 		sb.WriteString("</rec>")
 	}
